@@ -47,6 +47,16 @@ CLAIMED = {
          "executed symbolically; precondition: operators are Equals and no attribute is constrained twice inside one list; slice parameters modelled at "
          "offset 0; append modelled as copy.",
          "DESIGN.md §6 C05"),
+ "C07": ("Proof of ConsulSource.GetNextUInt32 against a ghost model of the Consul key that allows other writers to act between any two "
+         "operations: a successful call stored exactly the number it returns by the atomic CAS (api.wrote), that number is the stored number "
+         "immediately before the CAS plus one (1 for a fresh key), and it is larger than every number stored before the call started; the read uses "
+         "RequireConsistent (call-site precondition); the uint32 counter never wraps (genuine defect found by this obligation from the solver's model "
+         "value64 = 4294967295, repaired by a fix: commit). Uniqueness and monotonicity across racing callers and restarts follow from these per-call "
+         "facts plus CAS atomicity.",
+         "Assumed: Consul linearizable reads and atomic CAS on ModifyIndex (trusted contracts of api.KV.Get/CAS in contracts/ext/base.gvc), other writers "
+         "never decrease the key, strconv.ParseUint/FormatUint mutually inverse (uninterpreted). The START_ACTIVITY cancellation when no number can be "
+         "obtained is checked under C10's site clauses once those are claimed. The file-backed counter of apricot/local (documented unsafe) is not claimed.",
+         "DESIGN.md §6 C07"),
 }
 
 NOT_APPLICABLE = {
